@@ -354,6 +354,23 @@ def chain_roundtrip(led, x, model, fname, key, rep, ops, nontriv, fn="Mps.load",
                       f"object: qn {[np.asarray(q).shape for q in lo.qn]} vs {[np.asarray(q).shape for q in x.qn]}", key + ("v03",), fields, rep, nontriv)
         except Exception as e:
             led.check(False, f"post:{fn}:file_of_protocol_0.3_loads_identically", fn, f"loading a protocol-0.3 file raised {type(e).__name__}: {e}", key + ("v03",), fields, rep, nontriv)
+    # a file written by a single-precision run of the package (RENO_FP32): the same entries with 32-bit tensors - it loads, real stays real, complex stays complex
+    if ver == "0.4" and cls.__name__ in ("Mps", "MpDm"):
+        try:
+            raw = dict(np.load(fname, allow_pickle=True))
+            cplx_ = any(np.iscomplexobj(raw[f"mt_{i}"]) for i in range(n))
+            for i in range(n):
+                raw[f"mt_{i}"] = raw[f"mt_{i}"].astype(np.complex64 if np.iscomplexobj(raw[f"mt_{i}"]) else np.float32)
+            name32 = fname[:-4] + ".fp32.npz"
+            np.savez(name32, **raw)
+            l32 = cls.load(model, name32)
+            os.remove(name32)
+            ok32 = len(l32) == n and all(np.abs(np.asarray(l32[i].array) - np.asarray(x[i].array)).max() <= 1e-6 * max(1.0, np.abs(np.asarray(x[i].array)).max()) for i in range(n)) \
+                and bool(np.iscomplexobj(np.asarray(l32[0].array))) == bool(cplx_ and np.iscomplexobj(np.asarray(x[0].array)))
+            led.check(ok32, f"post:{fn}:single_precision_file_loads", fn, "a file with 32-bit tensors (written by a single-precision run) does not come back as the same tensors",
+                      key + ("fp32",), dict(fields, complex=bool(cplx_)), rep, nontriv)
+        except Exception as e:
+            led.check(False, f"post:{fn}:single_precision_file_loads", fn, f"loading a file with 32-bit tensors raised {type(e).__name__}: {e}", key + ("fp32",), fields, rep, nontriv)
     # older protocols the loader still accepts: "0.2" keeps the prefactor as the last entry of `tdh_wfns` (no `coeff` entry), "0.1" has no prefactor at all (documented:
     # it is lost, the state comes back with prefactor 1) and calls the direction flag `left`
     if ver == "0.4" and cls.__name__ in ("Mps", "MpDm"):
